@@ -599,6 +599,53 @@ fn concurrent_verifiers<CS: BbsCiphersuite>(ctx: &Ctx, rep: &Report, suite: Suit
     }
 }
 
+/// one point of the hidden-count sweep: an honest proof with `u` hidden messages, then whole-scalar framing edits
+fn hidden_count_item(rep: &Report, seed: u64, u: usize) -> CheckResult {
+    let ck = "hidden-count-sweep";
+    let suite = if u % 2 == 0 { SuiteId::Sha256 } else { SuiteId::Shake256 };
+    with_suite!(suite, CS => {
+        let kp = keypair::<CS>(&KeySpec { fixture: false, ikm: BSpec { len: 32, class: 0, seed: (seed as u32) ^ 0xC0DE }, key_info: OptBytes::None, key_dst: OptBytes::None }).unwrap();
+        let (sk, pk) = (kp.private_key(), kp.public_key());
+        let r = 1 + u % 3;
+        let l = u + r;
+        let msgs: Vec<Vec<u8>> = (0..l).map(|j| format!("m{}-{}", j, u).into_bytes()).collect();
+        // the disclosed positions are spread: first, middle, last
+        let idx: Vec<usize> = match r { 1 => vec![l / 2], 2 => vec![0, l - 1], _ => vec![0, l / 2, l - 1] };
+        let dm: Vec<Vec<u8>> = idx.iter().map(|&i| msgs[i].clone()).collect();
+        let cj = || json!({"U": u, "suite": suite.name()});
+        let herr = |site: &str, m: String| Fail { check: ck.into(), site: site.into(), msg: m, case: cj() };
+        let sig = Signature::<BBSplus<CS>>::sign(Some(&msgs), sk, pk, Some(b"h")).map_err(|e| herr("sign", format!("{:?}", e)))?;
+        let proof = PoKSignature::<BBSplus<CS>>::proof_gen(pk, &sig.to_bytes(), Some(b"h"), Some(b"p"), Some(&msgs), Some(&idx)).map_err(|e| herr("proof-gen", format!("{:?}", e)))?;
+        let pb = proof.to_bytes();
+        let ver = |b: &[u8]| PoKSignature::<BBSplus<CS>>::from_bytes(b).map(|p| p.proof_verify(pk, Some(&dm), Some(&idx), Some(b"h"), Some(b"p")).is_ok()).unwrap_or(false);
+        rep.eval(ck, 1);
+        if !ver(&pb) {
+            return rep.fail(ck, "honest-proof-rejected", format!("U = {}", u), cj());
+        }
+        let mut st = seed ^ (u as u64) << 8 | 1;
+        let rnd = refimpl::scalar_bytes(&scalar_from_seed(&mut st));
+        let n = pb.len();
+        let mut edits: Vec<(&str, Vec<u8>)> = vec![
+            ("zero-scalar-appended", [pb.clone(), vec![0u8; 32]].concat()),
+            ("random-scalar-appended", [pb.clone(), rnd.to_vec()].concat()),
+            ("challenge-repeated", [pb.clone(), pb[n - 32..].to_vec()].concat()),
+            ("two-scalars-appended", [pb.clone(), rnd.to_vec(), pb[n - 32..].to_vec()].concat()),
+            ("scalar-inserted-before-challenge", [pb[..n - 32].to_vec(), rnd.to_vec(), pb[n - 32..].to_vec()].concat()),
+        ];
+        if u >= 1 {
+            edits.push(("last-response-removed", [pb[..n - 64].to_vec(), pb[n - 32..].to_vec()].concat()));
+            edits.push(("challenge-removed", pb[..n - 32].to_vec()));
+        }
+        for (tag, b) in edits {
+            rep.eval(ck, 1);
+            if ver(&b) {
+                return rep.fail(ck, "accepted:scalar-framing", format!("proof with {} hidden messages ({} octets): accepted after the edit {}", u, n, tag), json!({"U": u, "edit": tag, "suite": suite.name()}));
+            }
+        }
+        Ok(())
+    })
+}
+
 /// one point of the presentation-header length sweep
 fn ph_len_item(rep: &Report, seed: u64, pl: usize) -> CheckResult {
     let ck = "ph-length-sweep";
@@ -683,6 +730,15 @@ pub fn run(ctx: &Ctx, rep: &Report) -> Meta {
     })
     .collect();
     par_items(ctx, rep, "long-data", &long, |c| check(rep, "long-data", c));
+    // every number of hidden messages 0..=300 (quick) / 0..=1100: whole scalars appended, inserted or removed
+    {
+        let us: Vec<usize> = (0..=ctx.tier.pick(300usize, 1100usize)).collect();
+        let seed = ctx.seed;
+        par_items(ctx, rep, "hidden-count-sweep", &us, |&u| hidden_count_item(rep, seed, u));
+        if !rep.aborted() {
+            rep.exhaustive(format!("every number of hidden messages 0..={} with whole-scalar framing edits", ctx.tier.pick(300, 1100)));
+        }
+    }
     // every presentation-header length 0..=1100 (quick) / 0..=2400: the proof must not verify for the presentation
     // header with its last octet changed, one octet shorter or longer (challenge transcript staging, length prefixes)
     {
@@ -700,7 +756,7 @@ pub fn run(ctx: &Ctx, rep: &Report) -> Meta {
                (b) single-bit flips of the proof octets (all bits for the all-bit-flips proofs with U in {0,1,3}; 96 sampled bits otherwise); \
                (c) attacker programs from public data only: Abar, Bbar in {O, Bv, P1, Q1, H1, rnd}^2 x D in {O, Bv, k*Bv, P1, rnd} with responses solving T1/T2 where possible, \
                the (P, t*P, k*Bv) family that only the pairing stops, points of cofactor order Q outside the subgroup (Abar = Q with Bbar in {-Q, Q, O, 2Q}, P+-Q, D = Bv + Q: pairs and triples that cancel in a sum), each as octets and as a serde-built object, plain and blind verifier; negative control t = sk must be accepted; \
-               size sweep over L in 9..=40 (quick) / 9..=100 (thorough) and 63..65 with sampled positions; ph-length-sweep: every presentation-header length 0..=1100 (quick) / 2400 with tail edits; long-data: messages, headers and presentation headers of 300 octets to 256 KiB, edits at the first / last octet, one octet shorter / longer, a leading zero octet; concurrent-verifiers: 16 threads verifying their own honest proof and an edited statement in turn with transcripts above 1 KiB; half of the cases after a warm-up history; oracle: every edited / flipped / forged proof is rejected; non-trivial = honest case with all three groups executed; evaluations = rejected-verification checks"
+               size sweep over L in 9..=40 (quick) / 9..=100 (thorough) and 63..65 with sampled positions; hidden-count-sweep: every number of hidden messages 0..=300 (quick) / 1100 with scalars appended / inserted / removed; ph-length-sweep: every presentation-header length 0..=1100 (quick) / 2400 with tail edits; long-data: messages, headers and presentation headers of 300 octets to 256 KiB, edits at the first / last octet, one octet shorter / longer, a leading zero octet; concurrent-verifiers: 16 threads verifying their own honest proof and an edited statement in turn with transcripts above 1 KiB; half of the cases after a warm-up history; oracle: every edited / flipped / forged proof is rejected; non-trivial = honest case with all three groups executed; evaluations = rejected-verification checks"
             .into(),
         assumptions: vec![
             "forgery families are the named ones (identity / Bv / P1 / generators / random, responses cancelling the recomputation); other adversaries are not covered".into(),
@@ -715,6 +771,10 @@ pub fn replay(ctx: &Ctx, rep: &Report, ck: &str, case: &Value) -> CheckResult {
         let before = rep.violation_count();
         concurrent_verifiers::<Bls12381Sha256>(ctx, rep, SuiteId::Sha256); concurrent_verifiers::<Bls12381Shake256>(ctx, rep, SuiteId::Shake256);
         return if rep.violation_count() > before { Err(Fail { check: ck.into(), site: "reproduced-under-contention".into(), msg: "the contention check fails again".into(), case: case.clone() }) } else { Ok(()) };
+    }
+    if ck == "hidden-count-sweep" {
+        let u = case["U"].as_u64().or(case["case"].as_u64()).ok_or_else(|| Fail { check: ck.into(), site: "replay-parse".into(), msg: "no U in the case".into(), case: case.clone() })?;
+        return hidden_count_item(rep, ctx.seed, u as usize);
     }
     if ck == "ph-length-sweep" {
         let pl = case["ph_len"].as_u64().or(case["case"].as_u64()).ok_or_else(|| Fail { check: ck.into(), site: "replay-parse".into(), msg: "no ph_len in the case".into(), case: case.clone() })?;
